@@ -46,6 +46,33 @@ if len(sys.argv) > 2 and sys.argv[2] == 'round4':
 Focus request: earlier studies already collected many changes for this property, in particular in the functions most directly connected with it and of these kinds: missing/extra std::move or std::forward, a check moved outside its lock, counters or fields forgotten in copy/move constructors, dropped self-assignment guards, wrong template indices, guards acquired too late or released too early, algorithm substitutions in the ordered queue list, delegating constructors. Do NOT repeat those. This time concentrate on this part of the statement: ''' + FOCUS[pid] + '''. Pick changes whose effect is on that part. The two changes must be of different kinds and in different functions.
 '''
 
+FILES = {
+ 'C01': 'include/eventpp/utilities/eventutil.h and the forEach / forEachIf / empty / operator bool / ownsHandle members of include/eventpp/callbacklist.h',
+ 'C02': 'include/eventpp/hetercallbacklist.h and include/eventpp/hetereventdispatcher.h (nested use of the heterogeneous classes)',
+ 'C03': 'include/eventpp/eventdispatcher.h (listenerMutex, doFindCallableListHelper, the per-event helpers) and include/eventpp/hetereventdispatcher.h',
+ 'C04': 'include/eventpp/internal/eventpolicies_i.h and include/eventpp/eventpolicies.h (policy detection and selection templates)',
+ 'C05': 'include/eventpp/internal/eventqueue_i.h and the enqueue / doEnqueue / doDispatchQueuedEvent members of include/eventpp/eventqueue.h',
+ 'C06': 'include/eventpp/hetereventqueue.h',
+ 'C07': 'include/eventpp/hetereventqueue.h (wait, waitFor, doEnqueue / doEnqueueItem notification) and the enqueue side of include/eventpp/eventqueue.h',
+ 'C08': 'include/eventpp/internal/eventqueue_i.h (BufferedItem, BufferedUnion, commonDtor) and include/eventpp/utilities/anydata.h',
+ 'C09': 'include/eventpp/hetercallbacklist.h, include/eventpp/hetereventdispatcher.h and include/eventpp/hetereventqueue.h',
+ 'C10': 'the constructors / assignment operators / swap of include/eventpp/eventdispatcher.h, include/eventpp/hetereventdispatcher.h and include/eventpp/hetercallbacklist.h',
+ 'C11': 'peekEvent / takeEvent / clearEvents / emptyQueue / doCanProcess of include/eventpp/eventqueue.h and include/eventpp/hetereventqueue.h',
+ 'C12': 'include/eventpp/mixins/mixinfilter.h, include/eventpp/mixins/mixinheterfilter.h and include/eventpp/utilities/argumentadapter.h',
+ 'C13': 'how include/eventpp/eventqueue.h uses its QueueList (SelectQueueList, BufferedItemList, splice positions) and include/eventpp/utilities/orderedqueuelist.h members other than the whole-list splice',
+ 'C14': 'include/eventpp/internal/hetercallbacklist_i.h and include/eventpp/internal/typeutil_i.h (prototype matching metafunctions, CanInvoke, tuple helpers)',
+ 'C15': 'the CallbackList specialisation of ScopedRemover in include/eventpp/utilities/scopedremover.h, and its use with HeterCallbackList / HeterEventDispatcher targets',
+ 'C16': 'include/eventpp/utilities/conditionalremover.h',
+ 'C17': 'the LargeData class and the accessor members (get, getAddress, isType, conversion operators) of include/eventpp/utilities/anydata.h',
+ 'C18': 'include/eventpp/utilities/anyid.h (HasEqual / HasLess / compare helpers / EmptyAnyStorage) ',
+ 'C19': 'the swap / move / copy members and doFreeNode / doFreeAllNodes of include/eventpp/callbacklist.h',
+ 'C20': 'include/eventpp/eventpolicies.h (SpinLock, GeneralThreading, SingleThreading) and include/eventpp/internal/typeutil_i.h',
+}
+if len(sys.argv) > 2 and sys.argv[2] == 'round5':
+    hint = '''
+Focus request: earlier studies already collected more than a hundred changes for these properties, most of them in the functions most directly connected with each property. This time the place is fixed instead: make your changes in ''' + FILES[pid] + '''. Find edits THERE whose effect breaks the property above (if the first place offers nothing after honest effort, the second one named). Avoid the kinds collected already: missing/extra std::move or std::forward, a check moved outside its lock, counters or fields forgotten in copy/move constructors, dropped self-assignment guards, guards acquired late or released early, algorithm substitutions in the ordered queue list, delegating constructors, save-and-restore of counters, copy assignment rewritten in place. The two changes must be of different kinds and in different functions.
+'''
+
 print(f'''You are given a scratch git worktree of the header-only C++11 library wqking/eventpp at {wt} (work ONLY inside that directory; never touch /repo or /verif, never read /verif). The library headers are in {wt}/include/eventpp, its unit tests (Catch) in {wt}/tests/unittest.
 
 Here is a semantic property the library is supposed to satisfy:
